@@ -29,7 +29,10 @@ PROP = {
                   "necessary by a witness the macro accepts (model and real code). The model (layout + recognisers on "
                   "bridge events, incl. tuple structs, newtypes, enums) is tied to the real derive output by "
                   "differential execution over a battery of about 500 types (100 base types incl. every hand-written Form impl of swimos_form for std/library types - enumerated from the source, coverage enforced by the extractor - and maps with compound keys, each also as Vec / Option / struct field / HashMap value, so that reset-and-reused recognisers are exercised) on written and mutated values; the two "
-                  "Recon reading paths, the MessagePack round trip of the battery types and 'one decoder instance = fresh reads' are decided on "
+                  "Recon reading paths, derived types with generic Value fields in every position (body, header_body, header, attr, slot, "
+                  "Option, Vec, tuple struct, newtype, enum variants; battery X02, X03, X13-X22, boundary shapes of the Value recognisers: "
+                  "every path - model, three printers x two Recon readers, reused recogniser, MessagePack typed and generic - compared with the instance, op vrt), "
+                  "the MessagePack round trip of the battery types and 'one decoder instance = fresh reads' are decided on "
                   "the implementation by a monitor. MessagePack byte level (generic Value path): an executable model of the "
                   "swimos_msgpack writer (rmp minimal integer encodings, str/bin/map/array/ext size classes, big integers as "
                   "ext 0/1, attributes as a map header + str names, map vs array bodies, slots as 2-arrays) and of the reader "
@@ -43,7 +46,9 @@ PROP = {
                   "generic Value path only (typed recognisers reading MessagePack are decided by the monitor), excludes float "
                   "tokens (0xca/0xcb: the framework keeps floats as decimals, mutants containing such a byte are not compared) and "
                   "lengths >= 2^32; "
-                  "floats, blobs, big integers, generic Value and map fields of derived types are exercised implementation-side only.",
+                  "floats, blobs, big integers, generic Value and map fields of derived types are exercised implementation-side only "
+                  "(monitor-only: Ty has no generic-Value kind; the Recon paths of vrt are relative to C09, i.e. checked only for texts the "
+                  "generic parser reads back as the printed value).",
     "trusted_base": COMMON_TRUST + [
         "hand-written schema descriptors of the battery types in sv-c16.rs (checked against the model by the as_value diff)",
         "modelled, not verified: the expansion of #[derive(Form)], nom Recon parser, rmp (its encoders are part of the MsgPack model, checked by the byte diff), num-bigint to_bytes_be/from_bytes_be",
